@@ -494,7 +494,7 @@ def work(shard):
                 for k, m in v:
                     # like Part.bad, but the reported example is the one with the shortest input text
                     P.counters['violating_cases'] += 1
-                    size = len(text) * 100 + len(repr(inj))
+                    size = len(text) * 100 + len(repr(inj)) + (50 if delims else 0) + (20 if layout != 'orig' else 0)
                     if k not in P.viol or size < P.viol[k][0]:
                         P.viol[k] = (size, case, m)
             elif P.n % 500 == 1:
